@@ -23,7 +23,20 @@ fn main() {
     let args: Vec<String> = std::env::args().collect();
     let routine = args.get(1).map(String::as_str).unwrap_or("");
     let rest = &args[2.min(args.len())..];
-    let out = match routine {
+    // a panic that escapes a routine (in a Drop of the real code, in an unguarded call) is an observation, not a crash
+    let guarded = std::panic::catch_unwind(std::panic::AssertUnwindSafe(|| run(routine, rest)));
+    let out = match guarded {
+        Ok(o) => o,
+        Err(e) => {
+            let m = e.downcast_ref::<String>().cloned().or_else(|| e.downcast_ref::<&str>().map(|x| x.to_string())).unwrap_or_default();
+            format!("{{\"found\": true, \"clause\": \"the real code panicked while the routine {} was running (outside the calls the routine guards): no call may panic\", \"input\": {{\"panic\": {}}}, \"rerun\": \"replay {}\"}}", routine, js(&m), routine)
+        }
+    };
+    println!("{}", out);
+}
+
+fn run(routine: &str, rest: &[String]) -> String {
+    match routine {
         "rl_allow" => c05::rl_allow(rest),
         "rl_new" => c05::rl_new(rest),
         "pos_allow" => c05::pos_allow(rest),
@@ -66,8 +79,7 @@ fn main() {
         "template_total" => c10::template_total(rest),
         "template_order" => c10::template_order(rest),
         _ => format!("{{\"found\": false, \"error\": \"unknown routine {}\"}}", routine),
-    };
-    println!("{}", out);
+    }
 }
 
 pub fn base() -> Instant {
